@@ -341,7 +341,9 @@ func (d *Decoder) findArrayPrefix(rkey rootedKey) *openTableArray {
 		maps.DeleteFunc(d.seenTableKeys, func(seenRkey rootedKey, _ bool) bool {
 			return strings.HasPrefix(seenRkey, rkey+".")
 		})
-		return arr
+		// Deleting from openTableArrays may have moved the element that arr points to;
+		// look it up again rather than returning a stale pointer.
+		return d.findArray(rkey)
 	}
 	// The longest relative key match wins.
 	maxLevel := 0
